@@ -35,6 +35,9 @@ def strategy(draw):
         n = draw(st.one_of(st.integers(40, 400), st.integers(40, 4000)))
         r = draw(gen.recording_recipe(n=n, dt=1.0 / fs, scale_exp=(exp, exp)))
         r["degrees_from_north"] = draw(ANG)
+        # metadata inherited from another recording (e.g. when a recording is rebuilt with a corrected orientation):
+        # its orientation entries then disagree with the recording's actual orientation
+        r["inherited_meta"] = draw(gen.chance(4))
         recs.append(r)
     nmin = min(r["n"] for r in recs)
     mode = draw(st.sampled_from(["exact", "exact", "frac", "frac", "too-long", "none"]))
@@ -120,7 +123,15 @@ def check_case(case):
     corners = list(case["corners"]) if case["corners_as"] == "list" else tuple(case["corners"])
 
     def build():
-        return [gen.build_recording(hv, r) for r in case["records"]]
+        out = []
+        for r in case["records"]:
+            meta = None
+            if r.get("inherited_meta"):
+                donor_dfn = case["orient"] if case["orient"] is not None else 0.0
+                donor = gen.build_recording(hv, dict(r, degrees_from_north=donor_dfn))
+                meta = donor.meta
+            out.append(gen.build_recording(hv, r, meta=meta))
+        return out
 
     def settings(plain=False):
         if plain:
@@ -191,6 +202,8 @@ def check_case(case):
         labels.append("order-sensitive")
     if case["orient"] is not None and any(abs(((r["degrees_from_north"] - case["orient"] + 180) % 360) - 180) > 1 for r in case["records"]):
         labels.append("rotated")
+    if any(r.get("inherited_meta") for r in case["records"]):
+        labels.append("inherited-meta")
     if any(len(a[0]) % k == 0 for a in arrays) and case["wl"] is not None:
         labels.append("last-window-short")
     return dict(labels=labels, nontrivial=nwin_total >= 2)
